@@ -16,7 +16,10 @@ fn arg_val(args: &[String], name: &str) -> Option<String> {
 
 fn replay_fn(prop: &str) -> Option<fn(&str, &serde_json::Value) -> Verdict> {
     match prop {
+        "C01" => Some(props::c01::replay),
         "C02" => Some(props::c02::replay),
+        "C11" => Some(props::c11::replay),
+        "C05" => Some(props::c05::replay),
         "C07" => Some(props::c07::replay),
         _ => None,
     }
@@ -46,7 +49,10 @@ fn main() {
             }
             let ctx = Ctx::new(&prop, tier, seed);
             let code = match prop.as_str() {
+                "C01" => props::c01::run(&ctx),
                 "C02" => props::c02::run(&ctx),
+                "C11" => props::c11::run(&ctx),
+                "C05" => props::c05::run(&ctx),
                 "C07" => props::c07::run(&ctx),
                 _ => {
                     eprintln!("unknown property {}", prop);
